@@ -968,6 +968,12 @@ def oracle_node(ctx, t, xs):
                 return ('value-inplace', 'x=%r got %r expected %r' % (x, flat(ctx, buf), [w.c() for w in want]))
         if flat(ctx, xe) != flat(ctx, xcopy):
             return ('mutates-x', 'x=%r became %r' % (x, flat(ctx, xe)))
+        if rr != 'F' and o.domain == o.range:
+            # `out` aliased to the input: the in-place bodies route through temporaries for this
+            xa = xe.copy()
+            res = o(xa, out=xa)
+            if res is not xa or not _close(ctx, flat(ctx, xa), want, exact, scale):
+                return ('value-aliased', 'x=%r out=x got %r expected %r' % (x, flat(ctx, xa), [w.c() for w in want]))
     if o.is_linear and len(xs) >= 2 and len(xs[0]) == d and len(xs[1]) == d:
         a = fr(ctx.num(small=True))
         x1, x2 = [fr(u) for u in xs[0]], [fr(u) for u in xs[1]]
